@@ -16,7 +16,7 @@ def run(ctx):
     d = tlc.check_design("Lazy_MC", "Lazy_MC.cfg", workers=4, timeout=600)
     for v in d.violated:
         ctx.violation("design|" + v, "Lazy violates %s" % v, {"tlc": d.tail[-30:]})
-    r = lazy_common.run_family(ctx, "inv", ["inverse"], each=True)
+    r = lazy_common.run_family(ctx, "inv", ["inverse", "crash"], each=True)
     cov.update({"states": d.distinct, "transitions": d.generated,
                 "design": {"module": "Lazy_MC", "checked": ["InverseIsTransposeOfInvertedAttr", "SingleValuedAtMostOne"]},
                 "traces_validated_against_impl": r["sessions"], "exhaustive": True,
